@@ -13,6 +13,7 @@ import XzVerif.Lemmas.XzFlip
 import XzVerif.Lemmas.XzLocal
 import XzVerif.Lemmas.XzFlipWhole
 import XzVerif.Lemmas.C16
+import XzVerif.Lemmas.XzStd
 
 namespace XzVerif.C05
 open XzVerif XzVerif.Container XzVerif.XzDecode XzVerif.CrcFlip
@@ -274,6 +275,76 @@ theorem truncation_is_never_stream_end (E : Env) (hloc : PayloadLocal E) (hbd : 
     split
     · simp
     · rename_i h; exact h
+
+/-! ## The concrete decoder: no hypotheses left
+
+  `XzEnv.stdEnv` is the environment of this liblzma build: payload = the raw filter chains of Model/Lzma2.lean
+  (`Lzma2.rawDecode`: LZMA1/LZMA2 last, delta/BCJ models in front), checks = CRC32/CRC64/SHA-256 models.
+  Its payload decoder satisfies both hypotheses (`Lemmas/LzmaCausal*.lean`: a lock-step simulation of two runs of the range
+  decoder / LZMA / LZMA2 / LZ-layer loops on inputs that agree on the consumed prefix), so the container theorems above hold
+  for the model that the correspondence run compares with the C code, without assumptions. -/
+
+/-- The real payload decoder is local: if the raw chain returns LZMA_STREAM_END on `x` having consumed `n ≤ |x|` bytes, it
+    returns the very same result (code, output, consumed) on every `y` with the same first `n` bytes. -/
+theorem payload_local_std : PayloadLocal XzEnv.stdEnv := XzEnv.payloadLocal_std
+
+/-- The real payload decoder never claims more input than it was given. -/
+theorem payload_bounded_std : PayloadBounded XzEnv.stdEnv := XzEnv.payloadBounded_std
+
+/-- `accepted_stream_extends` for the concrete decoder: an accepted Stream is accepted, with the same output and length, whatever
+    bytes follow it. -/
+theorem accepted_stream_extends_std (fl : Flags) (first : Bool) (p t : List UInt8) (cap : Nat)
+    (h : (streamOne XzEnv.stdEnv fl first p cap).ret = .streamEnd) :
+    streamOne XzEnv.stdEnv fl first (p ++ t) cap = streamOne XzEnv.stdEnv fl first p cap :=
+  accepted_stream_extends XzEnv.stdEnv payload_local_std payload_bounded_std fl first p t cap h
+
+/-- `prefix_free` for the concrete decoder (no LZMA_CONCATENATED): no proper prefix of an accepted Stream is accepted. -/
+theorem prefix_free_std (fl : Flags) (hnc : fl.concatenated = false) (b p : List UInt8) (cap : Nat)
+    (hr : (xzDecode XzEnv.stdEnv fl b cap).ret = .streamEnd) (hp : p <+: b)
+    (hlt : p.length < (xzDecode XzEnv.stdEnv fl b cap).consumed) :
+    (xzDecode XzEnv.stdEnv fl p cap).ret ≠ .streamEnd :=
+  prefix_free XzEnv.stdEnv payload_local_std payload_bounded_std fl hnc b p cap hr hp hlt
+
+/-- `truncation_is_never_stream_end` for the concrete decoder: a file cut anywhere inside its (only) Stream is reported neither
+    as LZMA_STREAM_END nor as LZMA_OK. -/
+theorem truncation_is_never_stream_end_std (fl : Flags) (hnc : fl.concatenated = false) (b : List UInt8) (cap : Nat)
+    (hr : (xzDecode XzEnv.stdEnv fl b cap).ret = .streamEnd) (n : Nat) (hn : n < (xzDecode XzEnv.stdEnv fl b cap).consumed) :
+    (xzDecode XzEnv.stdEnv fl (b.take n) cap).ret ≠ .streamEnd ∧ (xzDecode XzEnv.stdEnv fl (b.take n) cap).ret ≠ .ok :=
+  truncation_is_never_stream_end XzEnv.stdEnv payload_local_std payload_bounded_std fl hnc b cap hr n hn
+
+/-- `block_tail_bitflip_rejected` for the concrete decoder (Block Padding and Check field). -/
+theorem block_tail_bitflip_rejected_std (check hs : Nat) (h : BlockHeader)
+    (inp : List UInt8) (cap : Nat) (hb : (blockDecode XzEnv.stdEnv check false hs h inp cap).ret = .streamEnd)
+    (hsup : check ≠ 0 → XzEnv.stdEnv.checkSupported check = true)
+    (hwf : (blockDecode XzEnv.stdEnv check false hs h inp cap).compressed
+      ≤ (inp.take (min inp.length (compressedLimit hs check h.compressedSize))).length)
+    (i : Nat) (hlo : 8 * (blockDecode XzEnv.stdEnv check false hs h inp cap).compressed ≤ i)
+    (hhi : i < 8 * (blockDecode XzEnv.stdEnv check false hs h inp cap).consumed) :
+    (blockDecode XzEnv.stdEnv check false hs h (flipBit inp i) cap).ret ≠ .streamEnd :=
+  block_tail_bitflip_rejected XzEnv.stdEnv payload_local_std check hs h inp cap hb hsup hwf i hlo hhi
+
+/-- `index_footer_bitflip_rejected` for the concrete decoder (Index and Stream Footer of the whole file). -/
+theorem index_footer_bitflip_rejected_std (fl : Flags) (hnc : fl.concatenated = false) (b : List UInt8) (cap : Nat)
+    (hr : (xzDecode XzEnv.stdEnv fl b cap).ret = .streamEnd) :
+    ∃ (c : Nat) (final : HashInfo),
+      (xzDecode XzEnv.stdEnv fl b cap).consumed = STREAM_HEADER_SIZE + c + indexHashSize final + STREAM_HEADER_SIZE ∧
+      (b.drop (STREAM_HEADER_SIZE + c)).take (indexHashSize final) = indexEncode final ∧
+      ∀ (i : Nat), 8 * (STREAM_HEADER_SIZE + c + 1) ≤ i → i < 8 * (xzDecode XzEnv.stdEnv fl b cap).consumed →
+        (xzDecode XzEnv.stdEnv fl (flipBit b i) cap).ret ≠ .streamEnd :=
+  index_footer_bitflip_rejected XzEnv.stdEnv payload_local_std payload_bounded_std fl hnc b cap hr
+
+/-- `block_fields_bitflip_rejected` for the concrete decoder (every Block's header, padding and Check; all Check IDs of the
+    format that liblzma supports). -/
+theorem block_fields_bitflip_rejected_std (fl : Flags) (hnc : fl.concatenated = false) (hign : fl.ignoreCheck = false)
+    (b : List UInt8) (cap : Nat) (hr : (xzDecode XzEnv.stdEnv fl b cap).ret = .streamEnd)
+    (hsup : ∀ hdr, streamHeaderDecode (b.take STREAM_HEADER_SIZE) = .ok hdr → hdr.check ≠ 0 →
+      XzEnv.stdEnv.checkSupported hdr.check = true) :
+    ∃ (hdr : StreamFlags) (c : Nat) (final : HashInfo),
+      streamHeaderDecode (b.take STREAM_HEADER_SIZE) = .ok hdr ∧
+      BlocksRun XzEnv.stdEnv fl hdr [] (b.drop STREAM_HEADER_SIZE) cap (xzDecode XzEnv.stdEnv fl b cap).out c final ∧
+      ∀ (j : Nat), ProtectedBit XzEnv.stdEnv fl hdr (b.drop STREAM_HEADER_SIZE) cap j → j < 8 * c →
+        (xzDecode XzEnv.stdEnv fl (flipBit b (8 * STREAM_HEADER_SIZE + j)) cap).ret ≠ .streamEnd :=
+  block_fields_bitflip_rejected XzEnv.stdEnv payload_local_std payload_bounded_std fl hnc hign b cap hr hsup
 
 /-! ## .lz -/
 
